@@ -4,8 +4,10 @@
    starts, in order, closing unmatched blocks when a block opens), lazy continuation, AddText with the
    last-line-blank book-keeping, CloseFrom computing list looseness and trimming trailing blank lines of
    indented code; column/tab arithmetic with partially consumed tabs (cursor = byte index, column, columns
-   left of the tab under the cursor).  Not yet modelled: HTML blocks, link reference definitions, CR line
-   endings (shapes avoid them).
+   left of the tab under the cursor); link reference definitions split off the front of a paragraph when it closes
+   (label, destination, optional title on the same or a following line; SplitDefs).  Not yet modelled: HTML blocks, CR
+   line endings (shapes avoid them); a paragraph that consists of definitions only and is followed by a setext
+   underline is left to the shapes' discretion (the reference implementations disagree on "---" there).
 
    ParseDoc(bytes) yields the block skeleton with byte offsets; Emit prints it for every document over a
    line-shape alphabet and the harness compares it with the real tree (kinds, spans, heading levels, item
@@ -93,6 +95,102 @@ TrimBlankTxt(txt, src) == IF txt = <<>> THEN txt
                           ELSE LET sp == txt[Len(txt)] IN
                                IF \A k \in sp[1]..(sp[2]-1) : src[k+1] \in {SP, LF, 13, 9} THEN TrimBlankTxt(SubSeq(txt, 1, Len(txt)-1), src) ELSE txt
 
+\* ---------- link reference definitions (section 4.7): split off the front of a paragraph when it closes ----------
+\* Content of a paragraph: the bytes of its line spans, each with its source offset (container prefixes are not part of it)
+RECURSIVE ContentOf(_, _)
+ContentOf(txt, src) == IF txt = <<>> THEN <<>>
+                       ELSE LET sp == Head(txt) IN [k \in 1..(sp[2] - sp[1]) |-> <<src[sp[1] + k], sp[1] + k - 1>>] \o ContentOf(Tail(txt), src)
+LBR == 91  RBR == 93  COLON == 58  BSL == 92  LTC == 60  DQ == 34  SQ == 39  LPAR == 40  RPAR == 41
+DAt(B, i) == IF i >= 1 /\ i <= Len(B) THEN B[i] ELSE -1
+DIsPunct(b) == (b >= 33 /\ b <= 47) \/ (b >= 58 /\ b <= 64) \/ (b >= 91 /\ b <= 96) \/ (b >= 123 /\ b <= 126)
+DIsWS(b) == b \in {SP, TAB, LF, 13}
+RECURSIVE DSkipSpTab(_, _)
+DSkipSpTab(B, i) == IF DAt(B, i) \in {SP, TAB} THEN DSkipSpTab(B, i + 1) ELSE i
+\* spaces, tabs and at most one line ending
+DSkipLinkSpace(B, i) == LET a == DSkipSpTab(B, i) IN IF DAt(B, a) = LF THEN DSkipSpTab(B, a + 1) ELSE a
+\* label content starting at i (after '['): index after ']' or 0; needs a non-blank character, no unescaped brackets
+RECURSIVE DLabelEnd(_, _, _)
+DLabelEnd(B, i, seen) ==
+  LET c == DAt(B, i) IN
+  IF c = -1 \/ c = LBR THEN 0
+  ELSE IF c = BSL /\ DIsPunct(DAt(B, i + 1)) THEN DLabelEnd(B, i + 2, TRUE)
+  ELSE IF c = RBR THEN (IF seen THEN i + 1 ELSE 0)
+  ELSE DLabelEnd(B, i + 1, seen \/ ~DIsWS(c))
+\* destination not in angle brackets: ends at a space or control character; parentheses balanced or escaped; index after it or 0
+RECURSIVE DDestEnd(_, _, _)
+DDestEnd(B, i, depth) ==
+  LET c == DAt(B, i) IN
+  IF c = -1 \/ c = SP \/ (c >= 0 /\ c < 32) \/ c = 127 THEN (IF depth = 0 THEN i ELSE 0)
+  ELSE IF c = BSL /\ DIsPunct(DAt(B, i + 1)) THEN DDestEnd(B, i + 2, depth)
+  ELSE IF c = LPAR THEN DDestEnd(B, i + 1, depth + 1)
+  ELSE IF c = RPAR THEN (IF depth = 0 THEN 0 ELSE DDestEnd(B, i + 1, depth - 1))
+  ELSE DDestEnd(B, i + 1, depth)
+RECURSIVE DAngleEnd(_, _)
+DAngleEnd(B, i) ==
+  LET c == DAt(B, i) IN
+  IF c = -1 \/ c = LF \/ c = LTC THEN 0
+  ELSE IF c = BSL /\ DIsPunct(DAt(B, i + 1)) THEN DAngleEnd(B, i + 2)
+  ELSE IF c = GT THEN i + 1
+  ELSE DAngleEnd(B, i + 1)
+RECURSIVE DTitleEnd(_, _, _, _)
+DTitleEnd(B, i, closeCh, openCh) ==
+  LET c == DAt(B, i) IN
+  IF c = -1 THEN 0
+  ELSE IF c = BSL /\ DIsPunct(DAt(B, i + 1)) THEN DTitleEnd(B, i + 2, closeCh, openCh)
+  ELSE IF c = closeCh THEN i + 1
+  ELSE IF c = openCh /\ openCh = LPAR THEN 0
+  ELSE DTitleEnd(B, i + 1, closeCh, openCh)
+\* one definition starting at index p (a '['): [ok, llo, lhi (label content), dlo, dhi, tlo, thi (0: no title), next (first index after its last line)]
+NoDef == [ok |-> FALSE, llo |-> 0, lhi |-> 0, dlo |-> 0, dhi |-> 0, tlo |-> 0, thi |-> 0, next |-> 0]
+ParseDef(B, p) ==
+  IF DAt(B, p) # LBR THEN NoDef
+  ELSE LET le == DLabelEnd(B, p + 1, FALSE) IN
+       IF le = 0 \/ DAt(B, le) # COLON THEN NoDef
+       ELSE LET a == DSkipLinkSpace(B, le + 1)
+                de == IF DAt(B, a) = LTC THEN DAngleEnd(B, a + 1) ELSE (LET e == DDestEnd(B, a, 0) IN IF e > a THEN e ELSE 0)
+            IN IF a > Len(B) \/ de = 0 THEN NoDef
+               ELSE LET b == DSkipSpTab(B, de)
+                        atEOL == DAt(B, b) \in {LF, -1}
+                        destNext == IF DAt(B, b) = LF THEN b + 1 ELSE b
+                        t0 == DSkipLinkSpace(B, de)
+                        tc == DAt(B, t0)
+                        opener == tc \in {DQ, SQ, LPAR} /\ t0 > de
+                        te == IF opener THEN DTitleEnd(B, t0 + 1, (IF tc = LPAR THEN RPAR ELSE tc), tc) ELSE 0
+                        c == IF te > 0 THEN DSkipSpTab(B, te) ELSE 0
+                        titleOK == te > 0 /\ DAt(B, c) \in {LF, -1}
+                        base == [ok |-> TRUE, llo |-> p + 1, lhi |-> le - 1, dlo |-> a, dhi |-> de, tlo |-> 0, thi |-> 0, next |-> destNext]
+                    IN IF titleOK THEN [base EXCEPT !.tlo = t0, !.thi = te, !.next = (IF DAt(B, c) = LF THEN c + 1 ELSE c)]
+                       ELSE IF atEOL THEN base
+                       ELSE NoDef
+\* all leading definitions: [defs (sequence of <<start index, def>>), rest (index of the first content byte that is not part of a definition)]
+RECURSIVE ParseDefs(_, _, _)
+ParseDefs(B, p, acc) ==
+  LET q == DSkipSpTab(B, p)       \* the lines of a paragraph are stripped of leading white space
+      d == ParseDef(B, q)
+  IN IF p > Len(B) \/ ~d.ok THEN [defs |-> acc, rest |-> p]
+     ELSE ParseDefs(B, d.next, Append(acc, <<q, d>>))
+\* source offset of content index i (the offset just after the last byte for i = Len + 1)
+OffOf(C, i) == IF i <= Len(C) THEN C[i][2] ELSE C[Len(C)][2] + 1
+EndOf(C, i) == C[i - 1][2] + 1        \* source offset just after content index i - 1
+DefNode(C, q, d) ==
+  LET leaf(k, lo, hi) == [Mk(k, OffOf(C, lo)) EXCEPT !.e = EndOf(C, hi)]
+  IN [Mk("refdef", OffOf(C, q)) EXCEPT !.e = EndOf(C, d.next),
+        !.kids = <<leaf("label", d.llo, d.lhi), leaf("dest", d.dlo, d.dhi)>> \o (IF d.thi > 0 THEN <<leaf("title", d.tlo, d.thi)>> ELSE <<>>)]
+\* a closed paragraph (or setext heading) as the sequence of nodes it stands for: its definitions, then what is left of it
+SplitDefs(n, src) ==
+  LET C == ContentOf(n.txt, src)
+      B == [i \in 1..Len(C) |-> C[i][1]]
+      r == ParseDefs(B, 1, <<>>)
+      defNodes == [i \in 1..Len(r.defs) |-> DefNode(C, r.defs[i][1], r.defs[i][2])]
+  IN IF n.txt = <<>> \/ r.defs = <<>> THEN <<n>>
+     ELSE IF r.rest > Len(B) THEN defNodes
+     ELSE defNodes \o << [n EXCEPT !.s = OffOf(C, r.rest)] >>
+\* does anything but definitions remain of the paragraph frame?
+HasContentAfterDefs(fr, src) ==
+  LET C == ContentOf(fr.txt, src)
+      B == [i \in 1..Len(C) |-> C[i][1]]
+  IN ParseDefs(B, 1, <<>>).rest <= Len(B)
+
 Finalize(fr, end, src) ==
   LET n0 == [fr EXCEPT !.e = end] IN
   IF fr.k = "list" THEN LET loose == ListLoose(fr.kids) IN [n0 EXCEPT !.t = ~loose, !.kids = [i \in 1..Len(fr.kids) |-> [fr.kids[i] EXCEPT !.t = ~loose]]]
@@ -106,7 +204,8 @@ CloseFrom(st, d, end, src) ==
   ELSE LET n == Len(st)
            node == Finalize(st[n], end, src)
            rest == SubSeq(st, 1, n-1)
-       IN CloseFrom([rest EXCEPT ![n-1].kids = Append(@, node)], d, end, src)
+           nodes == IF node.k \in {"para", "setext"} THEN SplitDefs(node, src) ELSE <<node>>
+       IN CloseFrom([rest EXCEPT ![n-1].kids = @ \o nodes], d, end, src)
 
 \* ---------- phase 1: match open blocks ----------
 \* returns [m (number of matched frames), c (cursor), term (line consumed by a closing fence), st]
@@ -164,7 +263,7 @@ OpenNew(st, m, L, c, ls, src) ==
        LET f == FenceAt(L, j.i)
            st2 == OpenBlock(cut, [Mk("fcode", ls + j.i) EXCEPT !.a = f.n, !.c = f.ch, !.ind = ind], ls, src)
        IN [st |-> st2, m |-> Len(st2), c |-> EOLc, text |-> FALSE]
-  ELSE IF ck = "para" /\ ind <= 3 /\ SetextLevel(L, j.i) > 0 THEN
+  ELSE IF ck = "para" /\ ind <= 3 /\ SetextLevel(L, j.i) > 0 /\ HasContentAfterDefs(st[m], src) THEN
        LET st2 == [st EXCEPT ![m].k = "setext", ![m].a = SetextLevel(L, j.i)]
        IN [st |-> CloseFrom(st2, m, ls + Len(L), src), m |-> m - 1, c |-> EOLc, text |-> FALSE]
   ELSE IF ind <= 3 /\ ThematicBreak(L, j.i) THEN
@@ -256,6 +355,7 @@ SkelL(n, src) == [k |-> n.k, s |-> n.s, e |-> n.e, a |-> n.a, t |-> n.t, kids |-
 CONSTANTS MaxLines, ShapeSetName
 Shapes == CASE ShapeSetName = "wide" -> { <<97, 10>>, <<10>>, <<32, 32, 10>>, <<62, 32, 97, 10>>, <<62, 97, 10>>, <<62, 32, 62, 32, 97, 10>>, <<62, 10>>, <<45, 32, 97, 10>>, <<42, 32, 97, 10>>, <<43, 32, 97, 10>>, <<49, 46, 32, 97, 10>>, <<50, 46, 32, 97, 10>>, <<49, 48, 46, 32, 97, 10>>, <<49, 41, 32, 97, 10>>, <<45, 32, 32, 32, 97, 10>>, <<45, 32, 32, 32, 32, 32, 97, 10>>, <<45, 10>>, <<49, 46, 10>>, <<32, 97, 10>>, <<32, 32, 97, 10>>, <<32, 32, 32, 97, 10>>, <<32, 32, 32, 32, 97, 10>>, <<32, 32, 32, 32, 32, 97, 10>>, <<32, 32, 32, 32, 32, 32, 97, 10>>, <<35, 32, 97, 10>>, <<35, 35, 32, 97, 10>>, <<35, 10>>, <<61, 61, 61, 10>>, <<45, 45, 45, 10>>, <<45, 45, 10>>, <<61, 10>>, <<42, 42, 42, 10>>, <<96, 96, 96, 10>>, <<126, 126, 126, 10>>, <<96, 96, 96, 96, 10>>, <<32, 32, 96, 96, 96, 10>>, <<32, 32, 32, 32, 96, 96, 96, 10>>, <<96, 96, 96, 32, 97, 10>>, <<32, 32, 45, 32, 97, 10>>, <<32, 32, 32, 45, 32, 97, 10>>, <<32, 32, 32, 32, 45, 32, 97, 10>>, <<32, 32, 62, 32, 97, 10>>, <<97>>, <<45, 32, 97>>, <<96, 96, 96>>, <<32, 32, 49, 46, 32, 97, 10>>, <<62, 32, 45, 32, 97, 10>>, <<45, 32, 62, 32, 97, 10>>, <<62, 32, 96, 96, 96, 10>>, <<45, 32, 96, 96, 96, 10>> }
             [] ShapeSetName = "core" -> { <<97, 10>>, <<10>>, <<62, 32, 97, 10>>, <<45, 32, 97, 10>>, <<32, 32, 97, 10>>, <<32, 32, 32, 32, 97, 10>>, <<49, 46, 32, 97, 10>>, <<96, 96, 96, 10>>, <<45, 45, 45, 10>>, <<35, 32, 97, 10>>, <<62, 10>>, <<32, 32, 45, 32, 97, 10>> }
+            [] ShapeSetName = "defs" -> { <<91, 97, 93, 58, 32, 47, 117, 10>>, <<91, 97, 93, 58, 10>>, <<47, 117, 10>>, <<34, 116, 34, 10>>, <<91, 97, 93, 58, 32, 47, 117, 32, 34, 116, 10>>, <<117, 34, 10>>, <<120, 10>>, <<62, 32, 91, 97, 93, 58, 32, 47, 117, 10>>, <<62, 32, 34, 116, 34, 10>>, <<45, 32, 91, 97, 93, 58, 10>>, <<32, 32, 47, 117, 10>>, <<61, 61, 61, 10>>, <<10>>, <<91, 97, 93, 58, 32, 47, 117, 32, 34, 116, 34, 32, 120, 10>>, <<91, 98, 93, 58, 32, 60, 118, 32, 119, 62, 32, 39, 116, 39, 10>>, <<32, 91, 97, 93, 58, 32, 47, 117, 10>>, <<32, 32, 91, 98, 93, 58, 32, 47, 118, 10>>, <<91, 97, 93, 58, 32, 47, 117, 32, 40, 116, 41, 10>>, <<62, 32, 120, 10>>, <<42, 42, 42, 10>>, <<91, 97, 93, 10>>, <<91, 97, 93, 58, 32, 60, 62, 10>>, <<91, 97, 10>>, <<98, 93, 58, 32, 47, 117, 10>>, <<91, 97, 93, 58, 32, 47, 117, 32, 39, 116, 39, 32, 32, 10>>, <<32, 32, 32, 39, 117, 39, 32, 121, 10>>, <<91, 97, 93, 58, 32, 47, 117, 92, 10>>, <<91, 93, 58, 32, 47, 117, 10>>, <<91, 97, 93, 32, 58, 32, 47, 117, 10>>, <<91, 97, 93, 58, 47, 117, 10>>, <<35, 32, 104, 10>>, <<91, 97, 93, 58, 32, 47, 117>> }
             [] ShapeSetName = "tabs" -> { <<45, 32, 96, 96, 96, 10>>, <<32, 32, 96, 96, 96, 10>>, <<32, 32, 9, 120, 10>>, <<32, 32, 120, 10>>, <<9, 120, 10>>, <<62, 32, 96, 96, 96, 10>>, <<62, 32, 9, 120, 10>>, <<62, 9, 120, 10>>, <<96, 96, 96, 10>>, <<32, 9, 120, 10>>, <<49, 46, 32, 96, 96, 96, 10>>, <<32, 32, 32, 9, 120, 10>>, <<32, 32, 32, 96, 96, 96, 10>>, <<10>>, <<120, 10>>, <<32, 32, 32, 32, 9, 120, 10>>, <<45, 32, 9, 120, 10>>, <<32, 96, 96, 96, 10>>, <<45, 9, 120, 10>>, <<9, 9, 120, 10>>, <<32, 9, 45, 32, 120, 10>>, <<49, 46, 9, 120, 10>> }
 VARIABLES doc
 Init == doc = <<>>
